@@ -334,7 +334,7 @@ def vc_increase_width(prog, old_width=False):
                       b2z(all((s.get(k) is st['pre'][k]) or (eq(s.get(k), st['pre'][k]) is True) for k in ('lattice', 'expand_now', 'early_stop_idx', 'map', 'only_edges')))))
         g.append(('widen:width-is-the-new-one-at-return', b2z(eq(m.f.get('max_lattice_width'), Wn))))
         g.append(('widen:frame-only-the-width-is-written',
-                  b2z(set(m.f) == set(st['pre']) and all((m.f[k] is st['pre'][k]) or (eq(m.f[k], st['pre'][k]) is True) for k in st['pre'] if k != 'max_lattice_width'))))
+                  b2z(all(k in m.f and ((m.f[k] is st['pre'][k]) or (eq(m.f[k], st['pre'][k]) is True)) for k in st['pre'] if k != 'max_lattice_width'))))
         return [(a, b2z(b)) for a, b in g]
     rep = verify_function(prog, fv, setup, goals, models=dict(K.base_models()), contracts={'BaseMatcher.match': c_match},
                           name=f"BaseMatcher.increase_max_lattice_width[{'width->width' if old_width else 'none->width'}]")
